@@ -529,6 +529,33 @@ def _dc_replace(ip, obj, **changes):
     return o
 
 
+@model("dataclasses.asdict")
+def _dc_asdict(ip, obj, dict_factory=None):
+    """A-PY dataclasses.asdict: a dict of ALL fields, RECURSIVELY - dataclass instances inside field values (also inside lists, tuples, dicts)
+    are converted to dicts as well; other values are deep-copied (symbolic terms are immutable and shared)"""
+    def conv(x):
+        if isinstance(x, Obj) and getattr(x, "dc", None) is not None:
+            return {k: conv(x.f[k]) for k in list(x.dc["init"]) + list(x.dc["noinit"])}
+        if isinstance(x, list):
+            return [conv(v) for v in x]
+        if isinstance(x, tuple):
+            return tuple(conv(v) for v in x)
+        if isinstance(x, dict):
+            return {k: conv(v) for k, v in x.items()}
+        return x
+    if not isinstance(obj, Obj) or getattr(obj, "dc", None) is None:
+        raise Unsupported("dataclasses.asdict on an object without dataclass metadata")
+    return conv(obj)
+
+
+@model("dataclasses.fields")
+def _dc_fields(ip, obj):
+    meta = getattr(obj, "dc", None)
+    if meta is None:
+        raise Unsupported("dataclasses.fields on an object without dataclass metadata")
+    return tuple(PyObj("Field", name=k, init=k in meta["init"]) for k in list(meta["init"]) + list(meta["noinit"]))
+
+
 @model("itertools.chain")
 def _chain(ip, *xs):
     out = []
@@ -617,7 +644,7 @@ def container_method(ip, v, name):
                             out.append(x)
                 return out
             return PyFn(union, "set.union")
-        if name in ("update", "discard", "remove", "difference", "intersection", "issubset", "copy") and isinstance(v, SetList):
+        if name in ("update", "discard", "remove", "difference", "intersection", "issubset", "isdisjoint", "copy") and isinstance(v, SetList):
             same = lambda ip2, x, y: x is y or (not isinstance(x, (Obj, PyObj)) and ip2.equals(x, y) is True)  # noqa: E731
 
             def decided(ip2, x, y):
@@ -650,6 +677,8 @@ def container_method(ip, v, name):
                 return PyFn(lambda ip2, *others: SetList([x for x in v if not any(decided(ip2, x, y) for o in others for y in ip2.iterate(o))]), "set.difference")
             if name == "intersection":
                 return PyFn(lambda ip2, *others: SetList([x for x in v if all(any(decided(ip2, x, y) for y in ip2.iterate(o)) for o in others)]), "set.intersection")
+            if name == "isdisjoint":
+                return PyFn(lambda ip2, other: not any(decided(ip2, x, y) for y in ip2.iterate(other) for x in v), "set.isdisjoint")
             if name == "issubset":
                 return PyFn(lambda ip2, other: all(any(decided(ip2, x, y) for y in ip2.iterate(other)) for x in v), "set.issubset")
             if name == "copy":
